@@ -147,7 +147,10 @@ DelimTrees ==
     \cup {[ty |-> "bool", e |-> Bin("==", LS(d), Var("s"))] : d \in {<<125, 125>>, <<37, 125>>}}
     \cup {[ty |-> "int", e |-> e] : e \in {Item(Item(Hash(<<LS(<<97>>)>>, <<Hash(<<LS(<<98>>)>>, <<LI(1)>>)>>), LS(<<97>>)), LS(<<98>>)),
                                             Bin("+", Var("a"), Item(Hash(<<LS(<<97>>)>>, <<Item(Hash(<<LS(<<98>>)>>, <<LI(3)>>), LS(<<98>>))>>), LS(<<97>>))),
-                                            Filt("length", Hash(<<LS(<<97>>)>>, <<Hash(<<LS(<<98>>)>>, <<Hash(<<LS(<<99>>)>>, <<LI(1)>>)>>)>>), <<>>)}}
+                                            Filt("length", Hash(<<LS(<<97>>)>>, <<Hash(<<LS(<<98>>)>>, <<Hash(<<LS(<<99>>)>>, <<LI(1)>>)>>)>>), <<>>),
+                                            \* an attribute of an element: l[0].x, m['k'].x as operands
+                                            Bin("+", Attr(Item(Var("lo"), LI(0)), "x"), LI(1)), Bin("*", Attr(Item(Var("mo"), LS(<<107>>)), "x"), Attr(Var("o"), "x")),
+                                            Bin("-", Var("a"), Attr(Item(Var("lo"), Bin("-", Var("b"), LI(2))), "x")), Un("-", Attr(Item(Var("mo"), LS(<<107>>)), "x"))}}
 
 \* containment in a long sequence (the engine switches to a lookup table above 50 elements): literal and computed left operands
 Big(n) == VL([i \in 1..n |-> VI(i)])
@@ -161,6 +164,7 @@ InTrees ==
 CaseNames == ("A" :> VI(70)) @@ ("S" :> VS(<<90>>)) @@ ("In" :> VI(11)) @@ ("If" :> VI(13)) @@ ("Set" :> VI(17)) @@ ("With" :> VI(19)) @@ ("From" :> VI(23))
              @@ ("As" :> VI(29)) @@ ("Block" :> VI(31)) @@ ("Not" :> VI(37)) @@ ("And" :> VI(41)) @@ ("Or" :> VS(<<111, 114>>))
 Ctx2 == Ctx @@ CaseNames @@ ("big" :> Big(60)) @@ ("big50" :> Big(50)) @@ ("bigt" :> VLg([i \in 1..55 |-> VI(i)], "ints")) @@ ("o" :> VM(<<VS(<<120>>), VS(<<121>>), VS(<<88>>)>>, <<VI(5), VI(3), VI(50)>>)) @@ ("l" :> VL(<<VI(4), VI(9)>>))
+        @@ ("lo" :> VL(<<VM(<<VS(<<120>>)>>, <<VI(6)>>)>>)) @@ ("mo" :> VM(<<VS(<<107>>)>>, <<VM(<<VS(<<120>>)>>, <<VI(8)>>)>>))
 
 \* ---- observation wrappers ------------------------------------------------------
 cT == <<84>>  cF == <<70>>  cX == <<88>>
